@@ -60,12 +60,15 @@
   cancellation of `operator()` inside `spawn_tasks`), `stopSwept = false` (before 883284c, C20-F11: … while `run_tasks`
   stops the root tasks), `deplEscalates = false` (before 69d1957, C20-F5: a worker failing while its watcher depletes
   is only logged). None of these labels is enabled in the model of the current tree (`head_never_abandoned`).
+  THE CURRENT TREE leaves the model at ONE label: `orchCrash` (`cfg.orchSwept = false`, open finding C20-F12) — the orchestrator's
+  OWN loop raises; it handles only `CancelledError`, ends failed at once and orphans its ensemble. Every statement about the
+  current tree is a statement about runs WITHOUT that label (`head_abandoned_only_by_orchestrator_failure`).
   Not modelled: a cancellation of `startup_cleanup_activities` inside `stop(core_tasks)` after a FAILED startup (it would
   replace the startup failure), a further cancellation of an `operator()` that is already inside one of its `stop(…, cancelled=True)`
   (`aiotasks.stop` gives up by design: "double-cancelling") or inside the final `stop(hung_pending)` (instantaneous
   in a cooperative run), the liveness endpoint and `_command` tasks,
-  `settings.process.ultimate_exiting_timeout` (the armed SIGKILL of `ultimate_termination`), failures of the
-  orchestrator's own loop, which worker spawned which daemon, which root task left which orphan behind.
+  `settings.process.ultimate_exiting_timeout` (the armed SIGKILL of `ultimate_termination`), what follows a failure of the
+  orchestrator's own loop (`orchCrash`), which worker spawned which daemon, which root task left which orphan behind.
 -/
 namespace Kopf.C20
 
@@ -210,6 +213,9 @@ structure Cfg where
                       -- TRUE is the current tree (since /repo 883284c, repair of C20-F11)
   deplEscalates : Bool -- `queueing.watcher` re-checks `worker_error` after the depletion of its workers and raises the
                       -- RuntimeError it has not raised yet: TRUE is the current tree (since /repo 69d1957, repair of C20-F5)
+  orchSwept : Bool    -- the orchestrator stops its ensemble on EVERY exit of its loop, also when the loop itself raises (not
+                      -- only in `except CancelledError:`): FALSE IS THE CURRENT TREE (open finding C20-F12: its own failure ends
+                      -- it at once, the ensemble is orphaned); true with proposals/fix-C20-F12
   E : Nat        -- settings.queueing.exit_timeout
   W : Nat        -- bound of the peering withdrawal (retries of one PATCH)
   D : Nat        -- bound of one exit stopper: max (cancellation_backoff + cancellation_timeout) over daemons
@@ -331,6 +337,7 @@ inductive Label where
   | act (a : Actor)
   -- run_tasks
   | orchAbandon
+  | orchCrash
   | spawnCancel
   | stopCancel
   | hungFail
@@ -852,6 +859,17 @@ def step (cfg : Cfg) (s : State) : Label → Option State
         ∧ s.creq (.root .orchestrator) = true then
       some { s with abandoned := true, creq := upd s.creq (.root .orchestrator) false }
     else none
+  | .orchCrash =>
+    -- THE CURRENT TREE (variant `orchSwept := false`; open finding C20-F12): the orchestrator's OWN loop raises (an exception out of
+    -- `adjust_tasks` — anything but a cancellation): `orchestrator()` handles only `CancelledError`, so it ends FAILED at once
+    -- WITHOUT stopping its ensemble: the streams, their workers and the keep-alives are orphaned (hung tasks for `run_tasks`,
+    -- cancelled 5 s after the root tasks are gone — beside the cleanup activity; with peering the withdrawal then waits for the
+    -- closed vault for ever). The model does not describe the code beyond this label (the labels stay enabled as if nothing had
+    -- happened; the trace comparison stops here). Not enabled in the variant `orchSwept := true` (the proposed repair: the own
+    -- failure takes the path of a failed ensemble task).
+    if s.rt ≠ .exited ∧ cfg.orchSwept = false ∧ s.st (.root .orchestrator) = .running then
+      some { s with abandoned := true }
+    else none
   | .spawnCancel =>
     -- HISTORICAL (variant `spawnSwept := false`, the tree before /repo d6da86b; finding C20-F10): `operator()` was cancelled while
     -- `spawn_tasks` sat in its final `await asyncio.sleep(0)` — one loop iteration after the call, before `run_tasks` exists (the
@@ -967,10 +985,16 @@ def headEscalatesDepletion : Bool := true
     last handlers still ran); a reordering, or a return to one stop of everything, makes the tie theorem fail -/
 def headStopsPingersLast : Bool := true
 
+/-- the orchestrator's handler that stops its ensemble takes EVERY exception of its loop, not only `CancelledError`: the variant
+    `cfg.orchSwept`. FALSE of the current tree (open finding C20-F12: `except asyncio.CancelledError:` only — the orchestrator's
+    own failure orphans the ensemble); proposals/fix-C20-F12 makes it true, and this tie theorem fail until the model follows -/
+def headSweepsOwnFailure : Bool := false
+
 /-- the configuration of the model of the current tree -/
 def headCfg (e w d c h : Nat) : Cfg :=
   { fixed := headEscalates, coreWatched := headWatchesCore, orchShielded := headShieldsStop,
     spawnSwept := headSweepsSpawn, stopSwept := headSweepsStop, deplEscalates := headEscalatesDepletion,
+    orchSwept := headSweepsOwnFailure,
     E := e, W := w, D := d, C := c, H := h }
 
 /-- the sum of the grace periods of the tasks' `finally:` blocks: depletion, withdrawal, exit stoppers -/
@@ -981,11 +1005,13 @@ def Label.isActivity : Label → Bool
   | .act _ | .withdraw _ _ => true
   | _ => false
 
-/-- The labels at which a run of a HISTORICAL variant leaves the model (each one a repaired finding: the old code went on in a
-    way the model does not describe); they set `abandoned` and nothing else. None is enabled when `cfg.orchShielded`,
-    `cfg.spawnSwept`, `cfg.stopSwept` are true (the current tree). -/
+/-- The labels at which a run leaves the model: of a HISTORICAL variant (`orchAbandon`, `spawnCancel`, `stopCancel` — each one a
+    repaired finding: the old code went on in a way the model does not describe), and — IN THE CURRENT TREE — `orchCrash`
+    (the orchestrator's own failure, open finding C20-F12); they set `abandoned` and nothing else. None is enabled when
+    `cfg.orchShielded`, `cfg.spawnSwept`, `cfg.stopSwept` and `cfg.orchSwept` are true; in the model of the current tree
+    (`orchSwept := false`) `orchCrash` is the only one. -/
 def Label.leaves : Label → Bool
-  | .orchAbandon | .spawnCancel | .stopCancel => true
+  | .orchAbandon | .orchCrash | .spawnCancel | .stopCancel => true
   | _ => false
 
 /-- Replay a label list. -/
